@@ -83,7 +83,7 @@ class Acc:
 
     def violation(self, signature, case, detail):
         """signature: None = unclassified, else a string naming the defect model the case matches."""
-        sig = signature or "UNCLASSIFIED"
+        sig = signature or ("UNCLASSIFIED: " + str((detail or {}).get("what", ""))[:90] if isinstance(detail, dict) else "UNCLASSIFIED")
         self.viol_n[sig] += 1
         if len(self.viol[sig]) < MAX_KEEP:
             self.viol[sig].append({"case": jsonable(case), "detail": jsonable(detail)})
